@@ -142,6 +142,16 @@ func loadFindings() ([]finding, error) {
 // finish applies the known-findings list, prints the verdict lines, writes
 // evidence and replay files, and returns the exit code.
 func (r *Report) finish() int {
+	if len(renamedRaw) > 0 {
+		var l []string
+		for cur, old := range renamedRaw {
+			l = append(l, cur+" is audited under its former name "+old+" (same body, matched by fingerprint)")
+		}
+		sort.Strings(l)
+		for _, x := range l {
+			r.note("renamed function: %s", x)
+		}
+	}
 	fl, err := loadFindings()
 	if err != nil {
 		fmt.Println("error:", err)
